@@ -143,8 +143,27 @@ DIRECTED = [
 ]
 
 
+OPS = [("online", "answer"), ("online", "noreply"), ("online", "abort"), ("offline",), ("local",), ("remote",), ("s1f15",), ("s1f17",)]
+
+
+def exhaustive(depth):
+    import itertools
+    for seq in itertools.product(OPS, repeat=depth):
+        yield [("establish",), ("enable", True)] + list(seq)
+
+
 def gen_cases(rnd, tier):
     cases = []
+    if tier == "thorough":
+        for k, h in enumerate(exhaustive(3)):
+            cases.append(("exhaustive3", INITS[k % 4], SUBS[(k // 4) % 2], h))
+        for init in INITS:
+            for sub in SUBS:
+                for h in exhaustive(2):
+                    cases.append(("exhaustive2", init, sub, h))
+    else:
+        for k, h in enumerate(exhaustive(2)):
+            cases.append(("exhaustive2", INITS[k % 4], SUBS[(k // 4) % 2], h))
     for init in INITS:
         for sub in SUBS:
             for d in DIRECTED:
